@@ -41,19 +41,26 @@ func c10Ops() []string {
 	return ops
 }
 
-const c10Obs = "p(get_key(f1), get_key(t1), get_key(message), get_key(k1), get_key(k2))\n"
+const c10Obs = "p(get_key(f1), get_key(t1), get_key(message), get_key(k1), get_key(k2), get_key(t2))\n"
 
 func c10Point() pointSpec {
 	return pointSpec{Meas: "m", Time: 1600000000000000000,
 		Fields: []fieldSpec{{"f1", "int", "5"}, {"message", "str", "hello"}, {"u1", "go-uint64", "18446744073709551615"}, {"g1", "go-float32", "0.1"}, {"i1", "go-int32", "-7"}},
-		Tags:   [][2]string{{"t1", "tv0"}}}
+		Tags:   [][2]string{{"t1", "tv0"}, {"t2", "tv2"}}}
 }
 
-func emitC10(e *emitter, ops []string, gen string) {
+func emitC10(e *emitter, ops []string, gen string) { emitC10q(e, ops, gen, false) }
+
+// quiet: the keys are read back only once, after the last operation (reading every key after every
+// operation would itself touch the index between the operations)
+func emitC10q(e *emitter, ops []string, gen string, quiet bool) {
 	var sb strings.Builder
 	sb.WriteString("v = 7\nk2 = \"var\"\ncy = [1]\ncy[0] = cy\ninf = [1e308 * 10.0]\n") // a variable named like a key: add_key(k2)/set_tag(k2) read it first
-	for _, o := range ops {
-		sb.WriteString(o + "\n" + c10Obs)
+	for i, o := range ops {
+		sb.WriteString(o + "\n")
+		if !quiet || i == len(ops)-1 {
+			sb.WriteString(c10Obs)
+		}
 	}
 	src := sb.String()
 	out := runV1(runCase{Scripts: []scriptSrc{{"main.p", src}}, Entry: "main.p", Point: c10Point()})
@@ -84,7 +91,48 @@ func genC10(e *emitter, tier string, seed int64) {
 		n3, nr = 400000, 60000
 	}
 	for i := 0; i < n3; i++ {
-		emitC10(e, []string{ops[rng.Intn(len(ops))], ops[rng.Intn(len(ops))], ops[rng.Intn(len(ops))]}, "seq3")
+		emitC10q(e, []string{ops[rng.Intn(len(ops))], ops[rng.Intn(len(ops))], ops[rng.Intn(len(ops))]}, "seq3", i%2 == 1)
+	}
+	// operations on the second initial tag, after every single operation
+	for _, a := range ops {
+		for _, b := range []string{"drop_key(t2)", "rename(k1, t2)", "add_key(t2, 1)", "set_tag(t2)", "add_key(k1, get_key(t2))"} {
+			emitC10q(e, []string{a, b}, "seq2-t2", true)
+			emitC10q(e, []string{b, a}, "seq2-t2", true)
+		}
+	}
+	// a key is touched, renamed away, and its old name is written or read again - with nothing in between
+	// (no read-back of the other keys)
+	{
+		touching := func(k string) []string {
+			r := []string{}
+			for _, o := range ops {
+				if strings.Contains(o, "("+k+",") || strings.Contains(o, "("+k+")") {
+					r = append(r, o)
+				}
+			}
+			return r
+		}
+		all := [][]string{}
+		for _, k := range c10Keys {
+			tk := touching(k)
+			for _, k2 := range c10Keys {
+				if k2 == k {
+					continue
+				}
+				for _, a := range tk {
+					for _, b := range tk {
+						all = append(all, []string{a, fmt.Sprintf("rename(%s, %s)", k2, k), b})
+					}
+				}
+			}
+		}
+		if tier != "thorough" && len(all) > 1500 {
+			rng.Shuffle(len(all), func(i, j int) { all[i], all[j] = all[j], all[i] })
+			all = all[:1500]
+		}
+		for _, sq := range all {
+			emitC10q(e, sq, "seq3-renamed", true)
+		}
 	}
 	for i := 0; i < nr; i++ {
 		n := 4 + rng.Intn(37)
@@ -92,7 +140,7 @@ func genC10(e *emitter, tier string, seed int64) {
 		for j := range seq {
 			seq[j] = ops[rng.Intn(len(ops))]
 		}
-		emitC10(e, seq, "seqN")
+		emitC10q(e, seq, "seqN", i%2 == 1)
 	}
 }
 
